@@ -20,8 +20,12 @@ def scenario_units(tier):
 
 
 def units(tier):
-    return scenario_units(tier) + contract_units(SIDECARS, ["goodwe.inverter.Inverter._map_response",
-                                                           "goodwe.inverter.Inverter._decode"], tier)
+    # the scenarios use _map_response and _read_from_socket through their contracts; the units that prove those
+    # contracts for the bodies carry C15-tagged clauses (every id present; a rejection stays a rejection)
+    return (scenario_units(tier) + contract_units(SIDECARS, ["goodwe.inverter.Inverter._map_response",
+                                                            "goodwe.inverter.Inverter._decode"], tier)
+            + [("script", SIDECARS + ["protocol_sm"], "pyvc.inverter_harness", "read_from_socket_counter",
+                "Inverter._read_from_socket", PROPS, tier, {})])
 
 
 replay = replay_c15
